@@ -150,9 +150,16 @@ def codes_of(chip):
     return sorted(chipset_for(chip).CMD)
 
 
+def _codes_table():
+    return dict((chip, sorted(chipset_for(chip).CMD)) for chip in ALL_CHIPS)
+
+
 def det_bytes(n, *key):
     h = hashlib.shake_128(("|".join(str(k) for k in key)).encode())
     return h.digest(n) if n else b""
+
+
+CODES = _codes_table()
 
 
 # ============================================================== leg anchors
@@ -473,6 +480,15 @@ def apply_mutation(frame, mut):
             f = bytearray(b"\x00")
     elif kind == "insert":
         f.insert(mut[1] % (len(f) + 1), mut[2])
+    elif kind == "flips":
+        for bit in mut[1]:
+            bit %= 8 * len(f)
+            f[bit // 8] ^= 1 << (bit % 8)
+    elif kind == "tail":
+        k = max(1, min(mut[1], len(f)))
+        f = f[:-k] + bytearray(mut[2])
+        if not f:
+            f = bytearray(b"\x00")
     elif kind == "raw":
         f = bytearray(mut[1]) or bytearray(b"\x00")
     else:
@@ -554,9 +570,16 @@ def reaches_checksums(chip, frame):
 
 
 def run_response(case, ctx):
-    chip, code = case["chip"], case["code"]
-    payload, ext, mut = bytes(case["payload"]), bool(case.get("ext")), \
-        case["mut"]
+    chip = case["chip"]
+    if "code" in case:
+        code = case["code"]
+    else:
+        code = CODES[chip][case["codeidx"] % len(CODES[chip])]
+    ext, mut = bool(case.get("ext")) and chip != "acr122", case["mut"]
+    if "payload" in case:
+        payload = bytes(case["payload"])
+    else:
+        payload = det_bytes(case["plen"], "payload", case["pseed"])
     base = base_response(chip, code, payload, ext)
     frame = apply_mutation(base, mut)
     cls = frame_class(chip, mut, frame)
@@ -619,59 +642,51 @@ def enum_rsp_mutations(tier, seed):
 byte_ = st.integers(0, 255)
 
 
-@st.composite
-def gen_rsp_subst(draw):
-    chip = draw(st.sampled_from(RSP_CHIPS))
-    code = draw(st.sampled_from(codes_of(chip)))
-    ln = draw(st.one_of(st.integers(0, 24), st.integers(0, 24),
-                        st.sampled_from([252, 253, 254, 255, 262])))
-    payload = draw(st.binary(min_size=ln, max_size=ln))
-    ext = chip != "acr122" and draw(st.sampled_from([False, False, True]))
-    pos = st.one_of(st.integers(0, 12), st.integers(0, 300))
-    kind = draw(st.sampled_from(["subst", "subst", "add", "add", "delete",
-                                 "insert", "flip2", "raw", "tail"]))
-    if kind == "subst":
-        mut = ["subst", draw(st.lists(st.tuples(pos, byte_), min_size=1,
-                                      max_size=4))]
-    elif kind == "add":
-        # two or three bytes shifted so that a byte sum is preserved
-        d = draw(st.integers(1, 255))
-        pair = draw(st.sampled_from([
-            [[-2, -d], [-1, d]],            # DCS / postamble
-            [[-3, d], [-2, -d]],            # last data byte / DCS
-            [[3, d], [4, -d]],              # LEN / LCS
-            [[5, d], [-2, -d]],             # TFI / DCS
-            [[6, d], [-2, -d]],             # response code / DCS
-            [[5, d], [6, -d]],              # extended LENM / LENL
-            [[6, d], [7, -d]],              # extended LENL / LCS
-            [[-1, d]],                      # postamble alone
-            [[-2, d]],                      # DCS alone
-            [[-4, d], [-3, -d]],            # ACR: inside data / SW1
-        ]))
-        mut = ["add", pair]
-    elif kind == "delete":
-        mut = ["delete", draw(pos)]
-    elif kind == "insert":
-        mut = ["insert", draw(pos), draw(byte_)]
-    elif kind == "flip2":
-        mut = ["subst", []]
-        # two single-bit flips expressed as a raw frame to stay replayable
-        base = bytearray(base_response(chip, code, payload, ext))
-        for _ in range(2):
-            b = draw(st.integers(0, 8 * len(base) - 1))
-            base[b // 8] ^= 1 << (b % 8)
-        mut = ["raw", bytes(base)]
-    elif kind == "tail":
-        base = base_response(chip, code, payload, ext)
-        k = draw(st.integers(1, min(len(base), 12)))
-        mut = ["raw", base[:-k] + draw(st.binary(min_size=0, max_size=k + 2))]
-    else:
-        head = draw(st.sampled_from([b"\x00\x00\xff", b"\x00\x00\xff\xff\xff",
-                                     b"\x80", b""]))
-        mut = ["raw", head + draw(st.binary(min_size=0 if head else 1,
-                                            max_size=16))]
-    return {"chip": chip, "code": code, "payload": payload, "ext": ext,
-            "mut": mut}
+def _pairs(d, i):
+    """bytes shifted so that a byte sum is preserved (or not)"""
+    return [
+        [[-2, -d], [-1, d]],            # DCS / postamble
+        [[-3, d], [-2, -d]],            # last data byte / DCS
+        [[3, d], [4, -d]],              # LEN / LCS
+        [[5, d], [-2, -d]],             # TFI / DCS
+        [[6, d], [-2, -d]],             # response code / DCS
+        [[5, d], [6, -d]],              # extended LENM / LENL
+        [[6, d], [7, -d]],              # extended LENL / LCS
+        [[-1, d]],                      # postamble alone
+        [[-2, d]],                      # DCS alone
+        [[-4, d], [-3, -d]],            # ACR: inside data / SW1
+    ][i]
+
+
+_pos = st.one_of(st.integers(0, 12), st.integers(0, 300))
+_heads = [b"\x00\x00\xff", b"\x00\x00\xff\xff\xff", b"\x80", b"\x00"]
+_mut = st.one_of(
+    st.lists(st.tuples(_pos, byte_), min_size=1, max_size=4).map(
+        lambda x: ["subst", x]),
+    st.tuples(st.integers(1, 255), st.integers(0, 9)).map(
+        lambda t: ["add", _pairs(t[0], t[1])]),
+    st.tuples(st.integers(1, 255), st.integers(0, 9)).map(
+        lambda t: ["add", _pairs(t[0], t[1])]),
+    _pos.map(lambda x: ["delete", x]),
+    st.tuples(_pos, byte_).map(lambda t: ["insert", t[0], t[1]]),
+    st.lists(st.integers(0, 8 * 300), min_size=2, max_size=3).map(
+        lambda x: ["flips", x]),
+    st.tuples(st.integers(1, 12), st.binary(max_size=14)).map(
+        lambda t: ["tail", t[0], t[1][:t[0] + 2]]),
+    st.tuples(st.sampled_from(_heads), st.binary(max_size=16)).map(
+        lambda t: ["raw", t[0] + t[1]]))
+_rsp_case = st.fixed_dictionaries({
+    "chip": st.sampled_from(RSP_CHIPS),
+    "codeidx": st.integers(0, 40),
+    "plen": st.one_of(st.integers(0, 24), st.integers(0, 24),
+                      st.sampled_from([252, 253, 254, 255, 262])),
+    "pseed": st.integers(0, 999),
+    "ext": st.sampled_from([False, False, True]),
+    "mut": _mut})
+
+
+def gen_rsp_subst():
+    return _rsp_case
 
 
 # ================================================================= CRC legs
@@ -726,7 +741,12 @@ def _crc_one(kind, m, flips, bursts=()):
 
 
 def run_crc_msg(case, ctx):
-    m = bytes(case["msg"])
+    if "msg" in case:
+        m = bytes(case["msg"])
+    elif case.get("fill") is not None:
+        m = bytes([case["fill"]]) * case["len"]
+    else:
+        m = det_bytes(case["len"], "crcmsg", case["mseed"])
     bursts = [(p, b) for p, b in case.get("bursts", [])]
     flips = range(8 * (len(m) + 2))
     if "flips" in case:
@@ -766,9 +786,17 @@ def bulk_crc_short(tier, seed, i, n, acct):
             if idx % n != i:
                 continue
             m = bytes(tup)
-            # 3-byte messages: value comparisons for all, bit flips for a
-            # deterministic 1/61 sub-sample (stated in the leg's rule)
-            flips = allflips if (ln < 3 or (idx // n) % 61 == 0) else ()
+            # value comparisons for every message; all single bit flips for
+            # every message of <= 1 byte, for every 4th (quick) / every
+            # (thorough) 2-byte message and for every 61st 3-byte message
+            # (stated in the leg's rule)
+            if ln < 2:
+                flips = allflips
+            elif ln == 2:
+                flips = allflips if (tier != "quick" or (idx // n) % 4 == 0) \
+                    else ()
+            else:
+                flips = allflips if (idx // n) % 61 == 0 else ()
             try:
                 k = _crc_one("A", m, flips) + _crc_one("B", m, flips)
             except Violation as v:
@@ -792,16 +820,14 @@ def bulk_crc_short(tier, seed, i, n, acct):
 def gen_crc_random(tier):
     ln = st.one_of(st.integers(0, 12), st.integers(0, 300),
                    st.sampled_from([1, 2, 3, 16, 64, 255, 256, 300]))
-    msg = ln.flatmap(lambda n: st.one_of(
-        st.binary(min_size=n, max_size=n),
-        st.sampled_from([b"\x00", b"\xff", b"\x63", b"\x55"]).map(
-            lambda b: b * n)))
     return st.fixed_dictionaries({
-        "msg": msg,
-        "flips": st.lists(st.integers(0, 8 * 302 - 1), max_size=24),
+        "len": ln,
+        "mseed": st.integers(0, 9999),
+        "fill": st.sampled_from([None, None, None, 0x00, 0xFF, 0x63, 0x55]),
+        "flips": st.lists(st.integers(0, 8 * 302 - 1), max_size=12),
         "bursts": st.lists(st.tuples(st.integers(0, 302),
                                      st.binary(min_size=1, max_size=5)),
-                           max_size=6)})
+                           max_size=4)})
 
 
 # ============================================================= leg tt2-path
@@ -912,7 +938,7 @@ LEGS = [
              "non-trivial = mutated frame still starts with the start code / "
              "CCID type (reaches length and checksum logic)."),
     Leg("rsp-subst", run=run_response, gen=lambda tier: gen_rsp_subst(),
-        quick=24000, thorough=600000, shards_quick=8, shards_thorough=16,
+        quick=8000, thorough=200000, shards_quick=8, shards_thorough=16,
         nt_floor=0.3,
         rule="random multi-byte substitutions (1-4 bytes), compensated "
              "additions on field pairs (LEN/LCS, LENM/LENL, TFI/DCS, "
@@ -923,17 +949,19 @@ LEGS = [
         shards_quick=8, shards_thorough=16,
         rule="every message of 0..2 bytes (quick) / 0..3 bytes (thorough): "
              "calculate_crc, add_crc_a/b, check_crc_a/b(add(m)) against "
-             "ref_crc, plus every single bit flip of add(m) (for 3-byte "
-             "messages flips on every 61st message); evaluations count "
-             "check calls; non-trivial = message length >= 1."),
-    Leg("crc-random", run=run_crc_msg, gen=gen_crc_random, quick=4000,
-        thorough=60000, shards_quick=8, shards_thorough=16, nt_floor=0.5,
+             "ref_crc for every message, plus every single bit flip of "
+             "add(m) for all messages <= 1 byte, every 4th (quick) / every "
+             "(thorough) 2-byte message and every 61st 3-byte message; "
+             "evaluations count check calls; non-trivial = message length "
+             ">= 1."),
+    Leg("crc-random", run=run_crc_msg, gen=gen_crc_random, quick=2000,
+        thorough=30000, shards_quick=8, shards_thorough=16, nt_floor=0.5,
         rule="random and constant-byte messages of 0..300 bytes with up to "
-             "24 single bit flips and 6 bursts (1-5 bytes) of the protected "
+             "12 single bit flips and 4 bursts (1-5 bytes) of the protected "
              "frame: check_crc_* agrees with the reference; non-trivial = "
              "length >= 1."),
-    Leg("tt2-path", run=run_tt2, gen=lambda tier: gen_tt2(), quick=6000,
-        thorough=60000, shards_quick=8, shards_thorough=16, nt_floor=0.5,
+    Leg("tt2-path", run=run_tt2, gen=lambda tier: gen_tt2(), quick=3000,
+        thorough=40000, shards_quick=8, shards_thorough=16, nt_floor=0.5,
         rule="ContactlessFrontend.exchange() with a Type 2 Tag target over "
              "the simulated chip of pn531/pn532/pn533/rcs956/acr122/arygonA/"
              "arygonB/rcs380: tag answers with good CRC_A, single bit flip, "
